@@ -16,6 +16,12 @@ unit table of omv/ref/flatmodel.py) says what every get_val must return:
 
 After the history every addressable name is read back, the problem is (final_setup and) run and the
 independent-variable slots must still hold what was set; component outputs are then compared with R.
+
+Mechanism keys:  <op>-raises:<Exc>@<file:func>:<cause>:<value>-to-<index class>:<name kind>:<phase>   and
+<observable>-mismatch:<name mechanism>:<value>-to-<index class>:<name kind>:<unit class>, where <cause> is
+classified from the message + call form (`_cause`) and <name mechanism> from the name's index chain
+(plain | scalar-chain | dup-chain2 | flat-link-after-noncontiguous-view), so a recorded finding can be listed
+by a prefix pattern while any other failure of the same call keeps its own key.
 """
 import os
 import random
@@ -50,7 +56,7 @@ REQUIRED_COUNTERS = ['obs:roundtrip-get-after-set', 'obs:roundtrip-input-vector'
                      'cell:idx=none', 'cell:idx=scalar-position', 'cell:idx=subarray', 'cell:idxform=tuple',
                      'cell:idxform=slicer', 'cell:idxform=array', 'cell:idxform=negint',
                      'cell:units=asked-scale', 'cell:units=asked-offset', 'cell:units=native',
-                     'cell:chain=indexed-name', 'cell:model=cyclic']
+                     'cell:chain=indexed-name', 'cell:model=cyclic', 'cell:vectors=complex', 'cell:vectors=real']
 ASSUMPTIONS = ['NumPy indexing and the harness unit table (omv/ref/flatmodel.py UNITS/conv) are the reference',
                'only legal calls are generated: units= only for names that have units, taken from the same unit '
                'family; indices valid for NumPy on the name\'s shape with a non-empty result; values of exactly the '
@@ -370,7 +376,12 @@ def _close(got, exp, tol):
 class Replay:
     """One placement of one history on a fresh problem."""
 
-    def __init__(self, spec, fm, names, hist, placement, u_init, u_run0, acc):
+    def __init__(self, spec, fm, names, hist, placement, u_init, u_run0, acc, calloc=False):
+        # complex-allocated vectors (what any ExecComp / cs partial causes) make every source read a
+        # non-contiguous .real view: a mechanism of its own in the keys
+        self.calloc = calloc
+        if calloc:
+            names = [dict(n, mech='cplxvec-' + n['mech']) if n['indexed'] else n for n in names]
         self.spec, self.fm, self.names, self.hist, self.placement = spec, fm, names, hist, placement
         self.acc = acc
         self.bad = []          # (key, what)
@@ -484,7 +495,7 @@ class Replay:
         with self.fmon, poison():
             try:
                 self.prob = prob = G.build(self.spec)
-                prob.setup()
+                prob.setup(force_alloc_complex=self.calloc)
             except Exception as e:
                 self.raised = True
                 self._flag('setup-raises:%s@%s' % (type(e).__name__, exc_where(e)),
@@ -715,7 +726,7 @@ def _cause(msg, sig, n):
         return 'scalar-value-promoted-to-1d'
     if 'setting an array element with a sequence' in msg and sig == 'scalar-to-scalar-position':
         return 'scalar-value-promoted-to-1d'
-    if 'invalid index to scalar variable' in msg and n['mech'] == 'scalar-chain':
+    if 'invalid index to scalar variable' in msg and n['mech'].endswith('scalar-chain'):
         return 'user-indices-after-scalar-src-indices'
     return 'unclassified-' + n['mech']
 
@@ -749,9 +760,11 @@ def run_case(case, acc):
         acc.skip('oracle-newton-not-converged')
         return
     has_solver = any(n.get('nl', {}).get('type') not in (None, 'runonce') for n in _groups(spec['tree']))
+    calloc = random.Random(case['seed'] * 7919 + 13).random() < 0.25     # own stream: histories unchanged
+    acc.count('cell:vectors=%s' % ('complex' if calloc else 'real'))
     reps = []
     for placement in (0, 1, 2):
-        r = Replay(spec, fm, names, hist, placement, u_init, u_run0, acc)
+        r = Replay(spec, fm, names, hist, placement, u_init, u_run0, acc, calloc=calloc)
         r.run()
         reps.append(r)
     bad = []
@@ -813,7 +826,7 @@ def run_case(case, acc):
         combos.add((o['op'], n['kind'], cls, tuple(sorted(forms)), ucls, o.get('form')))
         if o['op'] == 'set' and (cls != 'none' or ucls in ('units-scale', 'units-offset')):
             nontriv = True
-    acc.ok(fingerprint(sorted(combos)), nontrivial=nontriv,
+    acc.ok(fingerprint([sorted(combos), calloc]), nontrivial=nontriv,
            sample={'seed': case['seed'], 'names': [(n['name'], n['kind'], n['slot']) for n in names][:8],
                    'history': [dict(o, name=names[o['k']]['name']) if 'k' in o else o for o in hist][:8]})
 
